@@ -148,9 +148,20 @@ func validNaming(groups []groupShape, part []int) bool {
 	return true
 }
 
+// ShapeLimits bounds the enumeration of policy structures.
+type ShapeLimits struct {
+	Groups, Names, Entries, Conds, DistinctNames int
+}
+
+var defaultLimits = ShapeLimits{Groups: 3, Names: 2, Entries: 2, Conds: 2, DistinctNames: 4}
+
 // EnumPolicyShapes lists every valid shape with weight <= W.
 func EnumPolicyShapes(W int, ops []string, valid bool) []PolicyShape {
-	gs := groupStructs(ops, 2, 2, 2)
+	return EnumPolicyShapesLim(W, ops, valid, defaultLimits)
+}
+
+func EnumPolicyShapesLim(W int, ops []string, valid bool, lim ShapeLimits) []PolicyShape {
+	gs := groupStructs(ops, lim.Names, lim.Entries, lim.Conds)
 	var out []PolicyShape
 	var rec func(cur []groupShape, w int)
 	rec = func(cur []groupShape, w int) {
@@ -160,13 +171,13 @@ func EnumPolicyShapes(W int, ops []string, valid bool) []PolicyShape {
 				n += g.u + len(g.ents)
 			}
 			groups := append([]groupShape(nil), cur...)
-			partitions(n, 4, func(p []int) {
+			partitions(n, lim.DistinctNames, func(p []int) {
 				if validNaming(groups, p) == valid {
 					out = append(out, PolicyShape{Groups: groups, Names: append([]int(nil), p...)})
 				}
 			})
 		}
-		if len(cur) == 3 {
+		if len(cur) == lim.Groups {
 			return
 		}
 		for _, g := range gs {
